@@ -8,10 +8,56 @@ SP = "fastavro/_schema_py.py"
 
 @target(SP, "schema_name")
 class schema_name:
-    """(namespace, full name) of a named schema: a dotted name is already full; otherwise the
-    schema's own namespace, else the enclosing one, qualifies it"""
+    """C11 ("Names"): (namespace, full name) of a named schema -- a dotted name is already full and its
+    namespace is the part before the last dot; otherwise the schema's own namespace, else the enclosing
+    one, qualifies it; without any namespace the name stands alone"""
+    types = dict(schema="dict", parent_ns="py")
+    returns = "tuple"
+    modifies = []
+    requires = lambda schema, parent_ns: (
+        "name" in schema and isinstance(schema["name"], str)
+        and isinstance(schema.get("namespace", parent_ns), str))
+    ensures = lambda schema, parent_ns, result: (
+        len(result) == 2
+        and implies("." in schema["name"],
+                    result[1] == schema["name"] and result[0] == S.str_rsplit(schema["name"], ".", 1)[0])
+        and implies("." not in schema["name"] and schema.get("namespace", parent_ns) != "",
+                    result[0] == schema.get("namespace", parent_ns)
+                    and result[1] == schema.get("namespace", parent_ns) + "." + schema["name"])
+        and implies("." not in schema["name"] and schema.get("namespace", parent_ns) == "",
+                    result[0] == "" and result[1] == schema["name"]))
+
+
+@target(SP, "schema_name", behavior="anyns")
+class schema_name_anyns:
+    """with an arbitrary second argument (the validators pass the path of the field being validated): a pair"""
     types = dict(schema="dict", parent_ns="py")
     returns = "tuple"
     modifies = []
     requires = lambda schema: "name" in schema and isinstance(schema["name"], str)
-    ensures = lambda schema, parent_ns, result: len(result) == 2
+    ensures = lambda result: len(result) == 2
+
+
+import spec.canon as K
+
+
+@target(SP, "_to_parsing_canonical_form")
+class to_pcf:
+    """C13: the text appended is exactly the Parsing Canonical Form of the (parsed) schema"""
+    types = dict(schema="py", fo="TextOutStream")
+    requires = lambda schema, fo: K.CANON_WF(schema) and fo.pos == len(fo.data)
+    modifies = ["fo"]
+    ensures = lambda schema, fo, result: fo.data == old.fo.data + K.PCF(schema) and fo.pos == len(fo.data)
+    loops = {
+        0: lambda schema, fo: (
+            K.CANON_WF_ALL(schema, _i) and fo.pos == len(fo.data)
+            and fo.data == old.fo.data + "[" + K.PCF_BRANCHES(schema, _i)),
+        1: lambda schema, fo: (
+            K.STRS(schema["symbols"], _i) and fo.pos == len(fo.data)
+            and fo.data == old.fo.data + '{"name":"' + schema["name"] + '","type":"enum","symbols":['
+            + K.PCF_SYMBOLS(schema["symbols"], _i)),
+        2: lambda schema, fo: (
+            K.CANON_WF_FIELDS(schema["fields"], _i) and fo.pos == len(fo.data)
+            and fo.data == old.fo.data + '{"name":"' + schema["name"] + '","type":"record","fields":['
+            + K.PCF_FIELDS(schema["fields"], _i)),
+    }
